@@ -1103,9 +1103,16 @@ func (c *Corpus) EnumerateSingleBlob(fn func(camtypes.BlobMeta) bool, br blob.Re
 // have one of the provided camliNodeType values, calling fn for each. If fn returns false,
 // enumeration ends.
 func (c *Corpus) EnumeratePermanodesByNodeTypes(fn func(camtypes.BlobMeta) bool, camliNodeTypes []string) {
+	// A permanode is in the set of every type it ever had, and the
+	// caller may name a type twice: call fn only once per permanode.
+	seen := make(map[blob.Ref]bool)
 	for _, t := range camliNodeTypes {
 		set := c.permanodesSetByNodeType[t]
 		for br := range set {
+			if seen[br] {
+				continue
+			}
+			seen[br] = true
 			if bm := c.blobs[br]; bm != nil {
 				if !fn(*bm) {
 					return
